@@ -32,5 +32,14 @@ PROP = {
         "shards": {"quick": 8, "thorough": 16},
         "watchdog": {"quick": 600, "thorough": 3000},
         "floors": {},
+    }, {
+        "name": "conc", "pkg": "htlcswitch", "test": "TestVerifC07Conc",
+        "files": ["htlcswitch/c07_test.go", "htlcswitch/c07conc_test.go"],
+        "porcupine": True,
+        "race": {"quick": True, "thorough": True},
+        "shards": {"quick": 8, "thorough": 16},
+        "watchdog": {"quick": 600, "thorough": 3000},
+        "gomaxprocs": 4,
+        "floors": {},
     }],
 }
